@@ -17,6 +17,27 @@ pub enum Alphabet {
     /// must hold on *every* stream (structure, membership), where the extremes are the words a
     /// hand-rolled threshold or scaling is most likely to get wrong (leaf weights carry no meaning)
     Ext(u32),
+    /// `Ext(2)` followed by the twelve words with alternating bit blocks of period 2, 4, ..., 64 and
+    /// their complements: any two distinct bit positions of a word differ in one of them, so an
+    /// implementation that serves several genes from the bits of one word can still be driven to
+    /// every pair of differing outcomes (support / independence oracles only)
+    Bits,
+}
+
+fn bit_pattern(k: u32) -> u64 {
+    // blocks of 2^(k/2) zero bits and as many one bits, alternating; odd k: complemented
+    let half = 1u32 << (k / 2);
+    let mut w: u64 = 0;
+    for b in 0..64u32 {
+        if (b / half) % 2 == 1 {
+            w |= 1u64 << b;
+        }
+    }
+    if k % 2 == 1 {
+        !w
+    } else {
+        w
+    }
 }
 
 impl Alphabet {
@@ -26,6 +47,7 @@ impl Alphabet {
             Alphabet::Rep { k, .. } => k,
             Alphabet::Mixed { m, k, .. } => m + k + 1,
             Alphabet::Ext(m) => m + 2,
+            Alphabet::Bits => 16,
         }
     }
     pub fn word32(&self, j: u32) -> u32 {
@@ -58,6 +80,14 @@ impl Alphabet {
                     u32::MAX
                 }
             }
+            Alphabet::Bits => {
+                if j < 4 {
+                    Alphabet::Ext(2).word32(j)
+                } else {
+                    // the high half, so that the top bits (which rand's float and bool samplers read) vary
+                    (bit_pattern(j - 4) >> 32) as u32
+                }
+            }
         }
     }
     pub fn word64(&self, j: u32) -> u64 {
@@ -87,6 +117,13 @@ impl Alphabet {
                     0
                 } else {
                     u64::MAX
+                }
+            }
+            Alphabet::Bits => {
+                if j < 4 {
+                    Alphabet::Ext(2).word64(j)
+                } else {
+                    bit_pattern(j - 4)
                 }
             }
         }
